@@ -379,13 +379,17 @@ func (e *Env) putPre(p PreObj) {
 	fp := fieldPath(kind)
 	cur := o
 	for i, seg := range fp {
-		if i == len(fp)-1 {
-			cur[seg] = fields
-		} else {
-			nx := map[string]interface{}{}
+		nx, _ := cur[seg].(map[string]interface{})
+		if nx == nil {
+			nx = map[string]interface{}{}
 			cur[seg] = nx
-			cur = nx
 		}
+		if i == len(fp)-1 {
+			for k, v := range fields { // (the field block may share its map with other entries, e.g. annotations)
+				nx[k] = v
+			}
+		}
+		cur = nx
 	}
 	e.Sim.Put(kindKey(kind, p.Res), o)
 }
